@@ -75,8 +75,40 @@ func (v *Verifier) addOb(name, kind, clause string, st *State, goal *Term, cover
 		ob.NTriv++
 		return
 	}
-	ob.Cases = append(ob.Cases, obCase{pc: append(append([]*Term(nil), st.pc...), st.instances()...), goal: goal})
+	// skolemise universally quantified goals and instantiate the path's
+	// quantified facts at the skolem constants and at the indices read on the path
+	var sks []*Term
+	goal = skolemise(goal, &sks)
+	ob.Cases = append(ob.Cases, obCase{pc: append(append([]*Term(nil), st.pc...), st.instances(sks)...), goal: goal})
 }
+
+func skolemise(g *Term, sks *[]*Term) *Term {
+	switch g.Op {
+	case "forall":
+		m := map[*Term]*Term{}
+		for _, b := range g.Bound {
+			sk := Fresh("sk_"+strings.TrimRight(b.Str, "$0123456789"), b.Sort)
+			m[b] = sk
+			*sks = append(*sks, sk)
+		}
+		return skolemise(Subst(g.Args[0], m), sks)
+	case "and":
+		if !cover(g) {
+			return g
+		}
+		args := make([]*Term, len(g.Args))
+		for i, a := range g.Args {
+			args[i] = skolemise(a, sks)
+		}
+		return And(args...)
+	case "=>":
+		return Implies(g.Args[0], skolemise(g.Args[1], sks))
+	}
+	return g
+}
+
+// cover: conjunctions are skolemised conjunct by conjunct (each gets its own constants).
+func cover(g *Term) bool { return true }
 
 // ---- loops ----
 
